@@ -29,7 +29,18 @@ func genNatsOps(rng *rand.Rand, withExpiry bool) []natsOp {
 		ops = append(ops, natsOp{Kind: "watch"})
 	}
 	expiries := 0
+	naps := 0
+	if rng.Intn(3) > 0 {
+		naps = 1 // (most sequences have none: a nap costs a quarter of a second)
+	}
 	for i := 0; i < n; i++ {
+		if naps == 0 && i > 0 && rng.Intn(8) == 0 && (ops[len(ops)-1].Kind == "create" || ops[len(ops)-1].Kind == "update") {
+			// longer than the TTL the caller passes as an option, shorter than the bucket's: the value is still live (the
+			// adapter leaves expiry to the bucket), a Create is refused, an Update with the latest revision goes through
+			ops = append(ops, natsOp{Kind: "nap"}, natsOp{Kind: []string{"create", "create", "get", "update"}[rng.Intn(4)], Val: fmt.Sprintf("n%d", i), Rev: "latest"})
+			naps++
+			continue
+		}
 		switch rng.Intn(12) {
 		case 0, 1, 2:
 			v := fmt.Sprintf("v%d-%d", i, rng.Intn(1000))
@@ -79,6 +90,7 @@ type kvRunner struct {
 	wch     <-chan leader.Entry
 	stable  bool
 	seen    []uint64
+	opt     []interface{} // what the election passes along with every Create and Update: its configured TTL
 }
 
 // norm maps absolute revisions to their rank among the revisions seen for this key (the bucket's sequence is
@@ -100,8 +112,11 @@ func (r *kvRunner) norm(rev uint64) uint64 {
 // run executes one op and returns a canonical result string.
 func (r *kvRunner) run(op natsOp, ttl time.Duration) string {
 	switch op.Kind {
+	case "nap":
+		time.Sleep(ttl/6 + 50*time.Millisecond)
+		return "nap"
 	case "create":
-		rev, err := r.kv.Create(r.key, []byte(op.Val))
+		rev, err := r.kv.Create(r.key, []byte(op.Val), r.opt...)
 		if err != nil {
 			return "create err " + errKind(err)
 		}
@@ -115,7 +130,7 @@ func (r *kvRunner) run(op natsOp, ttl time.Duration) string {
 		case "bogus":
 			exp = r.last + 1000
 		}
-		rev, err := r.kv.Update(r.key, []byte(op.Val), exp)
+		rev, err := r.kv.Update(r.key, []byte(op.Val), exp, r.opt...)
 		if err != nil {
 			return "update " + op.Rev + " err " + errKind(err)
 		}
@@ -277,12 +292,17 @@ func runNATS(rep *Report, rng *rand.Rand, n int, thorough bool) error {
 			// the same operations on the real adapter and on the reference store (own instance, same TTL)
 			tr := newTrace()
 			ref := newRefStore(tr, ttl)
-			real := &kvRunner{kv: adapter, key: sq.key}
+			// (the election's TTL option is shorter than the bucket's MaxAge here: the adapter ignores the option, expiry is
+			//  the bucket's business)
+			real := &kvRunner{kv: adapter, key: sq.key, opt: []interface{}{ttl / 6}}
 			refr := &kvRunner{kv: ref.client(1), key: sq.key}
 			var lines []string
 			for _, op := range sq.ops {
 				var a, b string
-				if op.Kind == "sleep" {
+				if op.Kind == "nap" {
+					a = real.run(op, ttl)
+					b = "nap"
+				} else if op.Kind == "sleep" {
 					a = real.run(op, ttl)
 					b = "sleep" // the reference store's record expires by its own timer during the same wall-clock sleep
 				} else {
